@@ -4,7 +4,7 @@ the Lean trace predicate of the property and (b) compared with the Lean model's 
 import os, time, json
 from . import core, build, lean
 
-SIM_SOURCES = ["simplat.c", "simev.c", "mocktran.c"]
+SIM_SOURCES = ["simplat.c", "simev.c", "mocktran.c", "valloc.c"]
 
 
 def canon(line):
